@@ -104,3 +104,9 @@ Example C17_nonvacuous :
   be_number (e_block sim) = 3 /\ te_gas_limit (e_tx txe) = 1200000 /\ te_gas_limit (e_tx sim) = 1000000000 /\
   be_prevrandao (e_block txe) = Some 4 /\ be_prevrandao (e_block sim) = Some 0 /\ e_txid txe = 777.
 Proof. vm_compute. repeat split. Qed.
+
+(* assumptions of the theorems above that had no report next to them *)
+Print Assumptions C17_sim_number_nonce_spec.
+Print Assumptions C17_env_sim_vs_signed.
+Print Assumptions C17_explicit_height_is_not_a_boundary.
+Print Assumptions C17_empty_deploy_is_a_call.
